@@ -21,7 +21,7 @@ AIB = z3.ArraySort(I, B)
 ENV = z3.Function("EDIT_ENVIRONMENT", AII, I, I, I, I, I, B)        # (sequence, k, string id, errors, matches)
 SPHERE = z3.Function("HAMMING_SPHERE", AII, I, I, I, B)             # (sequence, errors, string id)
 SLEN = z3.Function("STRING_LENGTH_OF_ID", I, I)
-schema("IdxAdapter", sequence=Str, max_error_rate=Real, indels=Bool)
+schema("IdxAdapter", sequence=Str, max_error_rate=Real, indels=Bool, name=Str)
 IdxAdapterT = ObjT("IdxAdapter")
 
 
@@ -163,3 +163,113 @@ def make_index_build(c):
     c.mutant("matches = n - errors", "matches = n - errors + 1")
     c.mutant("ambiguous.pop(s, None)", "pass", occurrence=1)
     c.mutant("if matches < other_matches:", "if matches <= other_matches:", occurrence=2)
+
+
+# ------------------------------------------------------------------------------ removal of the ambiguous strings
+NKEYS = z3.Function("NUMBER_OF_KEYS", AIB, I)
+_install_prev = install
+
+
+def install(world):
+    _install_prev(world)
+    from pyvc import values
+    values.TRUTHY_HOOKS["IdDict"] = lambda d: NKEYS(d.fields["has"]) > 0
+    world.handlers[("IdDict", "__len__")] = lambda ex, st, d, a, k, n, s: NKEYS(d.fields["has"])
+
+    def enumerate_keys(ex, st, d):
+        """the order in which iterating over the dict visits its keys: every key exactly once"""
+        if "keys" in d.fields:
+            return d
+        keys, pos, n = fresh("dictkeys", AII), fresh("dictpos", AII), NKEYS(d.fields["has"])
+        j, x = z3.Int("j!dk"), z3.Int("x!dk")
+        st.pc += [n >= 0, z3.ForAll([j], z3.Implies(z3.And(0 <= j, j < n), z3.And(d.fields["has"][keys[j]], pos[keys[j]] == j)), patterns=[keys[j]]),
+                  z3.ForAll([x], z3.Implies(d.fields["has"][x], z3.And(0 <= pos[x], pos[x] < n, keys[pos[x]] == x)), patterns=[pos[x]])]
+        st.env["__iter_pos__"] = MapV(pos)
+        return ObjV("IdDict", {**d.fields, "keys": keys, "pos": pos})
+
+    def d_iter(ex, st, d, args, kwargs, node, spec):
+        d2 = enumerate_keys(ex, st, d)
+        return SeqV(d2.fields["keys"], NKEYS(d.fields["has"]), lambda t: ObjV("IdxStr", {"__id__": t}))
+    world.handlers[("IdDict", "__iter__")] = d_iter
+    world.handlers[("IdDict", "__delitem__")] = lambda ex, st, d, idx, node: (
+        ex.cx.pending.append((z3.Not(d.fields["has"][_sid(idx)]), "KeyError")),
+        ObjV("IdDict", {**d.fields, "has": z3.Store(d.fields["has"], _sid(idx), z3.BoolVal(False))}))[1]
+    # next(iter(d)): some key of a non-empty dict
+    world.builtins["iter"] = lambda ex, st, a, k, n, s: a[0]
+
+    def b_next(ex, st, args, kwargs, node, spec):
+        d = args[0]
+        if isinstance(d, ObjV) and d.cls == "IdDict":
+            x = fresh("some_key", I)
+            st.pc.append(z3.Implies(NKEYS(d.fields["has"]) > 0, d.fields["has"][x]))
+            return ObjV("IdxStr", {"__id__": x})
+        raise Unsupported("next()")
+    world.builtins["next"] = b_next
+    prev_get = world.handlers[("IdDict", "__getitem__")]
+
+    def getitem4(ex, st, d, idx, node, spec):
+        if getattr(ex.cx.c, "four_tuple_values", False):
+            x = _sid(idx)
+            if not spec:
+                ex.cx.pending.append((z3.Not(d.fields["has"][x]), "KeyError"))
+            from pyvc import heap
+            return TupV((heap.read(IdxAdapterT, "IdxAdapter", "", d.fields["v0"][x]), heap.read(IdxAdapterT, "IdxAdapter", "", d.fields["v1"][x]),
+                         d.fields["v2"][x], d.fields["v3"][x]))
+        return prev_get(ex, st, d, idx, node, spec)
+    world.handlers[("IdDict", "__getitem__")] = getitem4
+
+
+class IdDictT(api.T):
+    pass
+
+
+_mk3 = api.mk
+
+
+def _mk_ext3(t, name, inv):
+    if isinstance(t, IdDictT):
+        return ObjV("IdDict", {"has": fresh(name + ".has", AIB), **{f"v{i}": fresh(f"{name}.v{i}", AII) for i in range(4)}})
+    return _mk3(t, name, inv)
+
+
+api.mk = _mk_ext3
+
+
+def removal_spec(cx):
+    x = z3.Int("x!rm")
+
+    def removed_upto(st, index, index0, ambiguous, upto):
+        """`index` is `index0` without the ambiguous strings that the iteration has passed; nothing else changes"""
+        pos = st.env["__iter_pos__"].arr if "__iter_pos__" in st.env else z3.K(I, z3.IntVal(0))
+        f, f0, a = index.fields, index0.fields, ambiguous.fields
+        gone = z3.And(a["has"][x], pos[x] < upto)
+        return z3.And(FORALL([x], f["has"][x] == z3.And(f0["has"][x], z3.Not(gone))), f["v0"] == f0["v0"], f["v1"] == f0["v1"], f["v2"] == f0["v2"])
+
+    def without_ambiguous(index, index0, ambiguous):
+        f, f0, a = index.fields, index0.fields, ambiguous.fields
+        return z3.And(FORALL([x], f["has"][x] == z3.And(f0["has"][x], z3.Not(a["has"][x]))), f["v0"] == f0["v0"], f["v1"] == f0["v1"], f["v2"] == f0["v2"])
+
+    cx.spec["__stateful__"] = dict(cx.spec.get("__stateful__") or {})
+    cx.spec["__stateful__"]["removed_upto"] = removed_upto
+    cx.spec.update(without_ambiguous=without_ambiguous, nkeys=lambda d: NKEYS(d.fields["has"]),
+                   no_keys=lambda d: FORALL([x], z3.Not(d.fields["has"][x])),
+                   every_ambiguous_string_is_indexed=lambda index, amb: FORALL([x], z3.Implies(amb.fields["has"][x], index.fields["has"][x])))
+
+
+@contract("adapters.py", "AdapterIndex._make_index", props=["C08"], name="AdapterIndex._make_index:remove_ambiguous")
+def make_index_remove(c):
+    """second part: the strings marked ambiguous are taken out of the index (reads that carry one are not trimmed), every
+    other entry stays as it is"""
+    c.body_from = "if ambiguous:"
+    c.body_until = "elapsed = time.time() - start_time"
+    c.types(self=IndexT, index=IdDictT(), ambiguous=IdDictT())
+    c.id_key_dicts = True
+    c.four_tuple_values = True
+    c.spec(index_spec)
+    c.spec(removal_spec)
+    c.modifies = ["index"]
+    c.requires(every_ambiguous_string_is_indexed="every_ambiguous_string_is_indexed(index, ambiguous)",
+               key_count="nkeys(ambiguous) >= 0 and implies(nkeys(ambiguous) == 0, no_keys(ambiguous))")
+    c.loop(1, head="for s in ambiguous", inv=["0 <= __k1 <= nkeys(ambiguous)", "removed_upto(index, old(index), ambiguous, __k1)"])
+    c.ensures(exactly_the_ambiguous_strings_are_removed="without_ambiguous(index, old(index), ambiguous)")
+    c.mutant("del index[s]", "pass")
